@@ -289,6 +289,20 @@ class FalsyState:
         self.restored = ('called', repr(state))
 
 
+class FreshArgs:
+    """every reduction builds its argument and its state afresh, and neither is a list / tuple / dict / set: temporaries that
+    live only as long as somebody keeps them"""
+
+    def __init__(self, c=0j):
+        self.c, self.tags = c, frozenset()
+
+    def __reduce__(self):
+        return (FreshArgs, (complex(self.c.real + 0.0, self.c.imag),), frozenset(x for x in self.tags))
+
+    def __setstate__(self, state):
+        self.tags = state
+
+
 BY_NAME = {'Plain': Plain, 'func': func, 'Color': Color, 'len': len, 'os.path': os.path, 'datetime': datetime, 'dict': dict, 'Point': Point,
            'collections.OrderedDict': collections.OrderedDict, 'os.path.join': os.path.join}
 KINDS_MUTABLE_AFTER = {'callable', 'plain', 'list', 'dict', 'slotsdict', 'mylist', 'mydict', 'statedict', 'reducestate', 'odict', 'deque', 'slots', 'reducelist', 'reducedict'}
@@ -316,7 +330,7 @@ def gen_spec(r, max_nodes=12, cycles=True, names=True):
     kinds = ['plain', 'plain', 'list', 'dict', 'tuple', 'slots', 'slotsdict', 'slotssetstate', 'statedict', 'statetuple', 'newargs', 'newargsint', 'reducestate',
              'reducelist', 'reducedict', 'indexeddict', 'table', 'mylist', 'mydict', 'mystr', 'myint', 'enum', 'intenum', 'namedtuple', 'complex', 'set', 'frozenset',
              'odict', 'deque', 'defaultdict', 'bytearray', 'range', 'decimal', 'fraction', 'timedelta', 'date', 'withclassref', 'frozen', 'tracking', 'propshadow', 'kwnew',
-             'callable', 'eagerstate', 'snapshot', 'falsystate']
+             'callable', 'eagerstate', 'snapshot', 'falsystate', 'freshargs', 'freshargs']
     if names:
         kinds += ['name', 'name']
     for _ in range(r.randint(1, max_nodes)):
@@ -331,6 +345,8 @@ def gen_spec(r, max_nodes=12, cycles=True, names=True):
             nodes.append([k, ref()])
         elif k == 'falsystate':
             nodes.append([k, r.randint(0, 9), r.randrange(len(FalsyState.STATES))])
+        elif k == 'freshargs':
+            nodes.append([k, r.randint(0, 99)])
         elif k == 'kwnew':
             nodes.append([k, r.choice([0, 5, -2])])
         elif k in ('list', 'tuple', 'mylist', 'reducelist', 'deque'):
@@ -492,7 +508,7 @@ def reach_set(edges, a):
 def build(spec):
     nodes = spec['nodes']
     o = [None] * len(nodes)
-    leaf = {'atom', 'mystr', 'myint', 'newargsint', 'kwnew', 'enum', 'intenum', 'complex', 'bytearray', 'range', 'decimal', 'fraction', 'timedelta', 'date', 'name'}
+    leaf = {'freshargs', 'atom', 'mystr', 'myint', 'newargsint', 'kwnew', 'enum', 'intenum', 'complex', 'bytearray', 'range', 'decimal', 'fraction', 'timedelta', 'date', 'name'}
     order = [i for i, n in enumerate(nodes) if n[0] in leaf] + [i for i, n in enumerate(nodes) if n[0] not in leaf]
     for i in order:
         n = nodes[i]
@@ -509,6 +525,9 @@ def build(spec):
             o[i] = Snapshot(o[n[1]])
         elif k == 'falsystate':
             o[i] = FalsyState(n[1], n[2])
+        elif k == 'freshargs':
+            o[i] = FreshArgs(complex(n[1], n[1] + 1))
+            o[i].tags = frozenset([n[1], n[1] + 1000])
         elif k == 'slots':
             o[i] = Slots(o[n[1]], o[n[2]])
         elif k == 'slotsdict':
